@@ -61,6 +61,16 @@ static void h_split(char * s, struct h_line * l)
  * receives anything else stops the case ("badpriv" line, then the parent reports a fault) */
 static char h_cookie_obj;
 #define H_COOKIE ((void *)&h_cookie_obj)
+static char h_cookie_obj2;
+#define H_COOKIE2 ((void *)&h_cookie_obj2)   /* a second context, for APIs that take two different ones */
+static void h_check_priv2(const void * p, const void * expected)
+{
+    if (p != expected) {
+        printf("badpriv\n");
+        fflush(stdout);
+        _exit(3);
+    }
+}
 static void h_check_priv(const void * p)
 {
     if (p != H_COOKIE) {
